@@ -30,6 +30,8 @@ Unknown == 0        \* an id / URI that no document contains
 Abs     == [t |-> "abs", v |-> 0]
 IntV(i)  == [t |-> "int", v |-> i]
 ObjV(n)  == [t |-> "obj", v |-> n]
+\* a member whose value is null is a member: it exists, can be tested, copied, moved, replaced and removed
+NullV    == [t |-> "null", v |-> 0]
 
 EmptyDoc == [keys |-> <<>>, svcs |-> <<>>, aka |-> <<>>, other |-> [n \in ONames |-> Abs]]
 
@@ -88,7 +90,9 @@ ApplyJOp(o, j) ==
       [] j.op = "copy"    -> IF ~Exists(o, j.from) THEN Fail(o, "copy:missing-from")
                              ELSE IF ~ParentOk(o, j.path) THEN Fail(o, "copy:missing-parent")
                              ELSE Ok(Put(o, j.path, Get(o, j.from)))
-      [] j.op = "test"    -> IF ~Exists(o, j.path) THEN Fail(o, "test:missing-target")
+      [] j.op = "test"    -> IF ~Exists(o, j.path)
+                             \* (named separately: a known deviation of the pinned json-patch library - a missing member tests equal to null)
+                             THEN (IF j.val = NullV THEN Fail(o, "test:missing-target:value-is-null") ELSE Fail(o, "test:missing-target"))
                              ELSE IF Get(o, j.path) = j.val THEN Ok(o)
                              \* (named separately: a known deviation of the pinned json-patch library)
                              ELSE IF Get(o, j.path) = ObjV(0) /\ j.val.t = "obj"
@@ -153,13 +157,13 @@ ReplacePatches ==
         ss \in {<<>>, <<[id |-> MinS, ver |-> 1]>>}}
 
 Paths == [name : ONames, sub : BOOLEAN]
-Vals  == {IntV(1), IntV(2), ObjV(0), ObjV(1)}
+Vals  == {IntV(1), IntV(2), ObjV(0), ObjV(1), NullV}
 J(op, path, from, val) == [op |-> op, path |-> path, from |-> from, val |-> val]
 JOps ==
     {J("add", p, p, v) : p \in Paths, v \in Vals}
     \cup {J("replace", p, p, v) : p \in Paths, v \in {IntV(2), ObjV(0)}}
     \cup {J("remove", p, p, IntV(0)) : p \in Paths}
-    \cup {J("test", p, p, v) : p \in Paths, v \in {IntV(1), ObjV(0), ObjV(1)}}
+    \cup {J("test", p, p, v) : p \in Paths, v \in {IntV(1), ObjV(0), ObjV(1), NullV}}
     \cup {J(o, p, f, IntV(0)) : o \in {"move", "copy"}, p \in Paths, f \in Paths}
 \* nested members hold integers only: a value is put under /name/n only if it is an integer,
 \* and values move / copy between paths of the same depth (keeps the universe finite)
